@@ -341,10 +341,18 @@ def explore(prop, mod, a):
                 rc = EXIT_HARNESS
                 break
             v2 = r2.get("violation")
-            if not v2 or v2["clause"] != mv["clause"] or r2["digest"] != mplan["digest"]:
-                out_lines.append(f"HARNESS-ERROR violation did not reproduce exactly in a fresh interpreter: {path} got {r2}")
+            if not v2 or v2["clause"] != mv["clause"]:
+                out_lines.append(f"HARNESS-ERROR violation did not reproduce in a fresh interpreter: {path} got {r2}")
                 rc = EXIT_HARNESS
                 break
+            if r2["digest"] != mplan["digest"]:
+                # the same clause fails again, but the run's log differs: the SYSTEM is not deterministic under this plan
+                # (typically its process died from a signal, e.g. reading through a mapping of a file it had deleted).
+                # The violation stands; the replay file says that only the verdict, not the byte-exact history, repeats.
+                mplan["replay_note"] = ("the violation (same clause" + ("" if v2.get("sig") == mv.get("sig") else f", signature {v2.get('sig')} instead of {mv.get('sig')}") +
+                                        ") reproduces in a fresh interpreter, the run digest does not: the system under test behaves nondeterministically under this plan")
+                jdump(mplan, path, indent=1)
+                out_lines.append("note: the violation reproduces in a fresh interpreter but the run digest differs (nondeterministic system behaviour, e.g. death by signal)")
             out_lines.append(f"violation clause={mv['clause']} sig={mv.get('sig')} detail={str(mv.get('detail'))[:600]}")
             out_lines.append(f"VIOLATION property={prop} replay={path}")
             reported.append(str(path))
@@ -365,9 +373,12 @@ def explore(prop, mod, a):
 
 def minimise(mod, plan, v):
     """Greedy minimisation: ask the check module for candidate simplifications of the plan, keep
-    one when the same clause still fails.  Deterministic; bounded."""
+    one when the same clause still fails - and the failure has not turned into a listed known finding
+    (shrinking a spike train may e.g. leave no valid spike at all, which fails the same clause for a
+    different, already recorded reason: that would hide the violation being minimised).  Deterministic; bounded."""
     if not hasattr(mod, "shrink_candidates"):
         return plan, v
+    known = load_known(mod.PROP)
     best, bestv = plan, v
     budget = getattr(mod, "SHRINK_BUDGET", 150)
     improved = True
@@ -381,7 +392,7 @@ def minimise(mod, plan, v):
             if "harness_error" in res:
                 continue
             cv = res.get("violation")
-            if cv and cv["clause"] == v["clause"]:
+            if cv and cv["clause"] == v["clause"] and match_known(known, cv) is None:
                 best, bestv = res.get("plan", cand), cv
                 improved = True
                 break
